@@ -572,7 +572,7 @@ func TestC07(t *testing.T) {
 	group("random-ops", r.N(3000, 120000), func(c *ev.Case) { oneCase(c, "random-ops") })
 	group("random-bytes", r.N(2000, 80000), func(c *ev.Case) { oneCase(c, "random-bytes") })
 	group("ladder", r.N(300, 12000), ladder)
-	group("child-ladder", r.N(120, 8000), childLadder)
+	group("child-ladder", r.N(120, 3000), childLadder)
 
 	r.Floor("runs", 30000)
 	r.Floor("steps_completed", 1000000)
